@@ -98,6 +98,28 @@ Example C17_order_matters :
 Proof. repeat split; vm_compute; reflexivity. Qed.
 Print Assumptions C17_order_matters.
 
+(* Channel capacities matter (seeded changes C17 round 2).  Two sends of the
+   code are on the allow-list of C17/Sites.v only because their channel has a
+   free slot (C17/Tie.v Tie_capacities ties the capacities to the source).
+   Without the slot they are wait sites, and the computable check rejects
+   both:
+   - checkpointedCFHeadersQuery.handleResponse, run by a query worker:
+     select { headerChan <- ; <-blockMgr.quit }.  The worker belongs to the
+     work manager, which is stopped BEFORE the block manager: a wait on a
+     later component without a timer.  Stop hangs at the work manager's stage.
+   - broadcastHandler's reply req.errChan <- err when the requester has left
+     through b.quit: no alternative at all.  Stop hangs at the broadcaster's
+     stage. *)
+Example C17_channel_capacity_matters :
+  let worker_in_handle_response := mkSite 24 (Some CWork) [RQuit CBlock] [] in
+  let handler_in_reply := mkSite 16 (Some CBcast) [] [] in
+  wf_from [] stop_order (worker_in_handle_response :: code_sites) = false
+  /\ run_stop stop_order [] [worker_in_handle_response] 0 = Hang CWork
+  /\ wf_from [] stop_order (handler_in_reply :: code_sites) = false
+  /\ run_stop stop_order [] [handler_in_reply] 0 = Hang CBcast.
+Proof. repeat split; vm_compute; reflexivity. Qed.
+Print Assumptions C17_channel_capacity_matters.
+
 (* Non-vacuity: a state with a transaction broadcast, a UTXO scan and a
    filter-header query in flight and callers of every kind blocked runs
    through all stages and needs the full timer budget. *)
